@@ -249,4 +249,4 @@ var c10 = &vh.Prop[c10Case]{
 
 func init() { registrars = append(registrars, c10.Register) }
 
-func TestC10(t *testing.T) { c10.Check(t, vh.N(8000, 25000)) }
+func TestC10(t *testing.T) { c10.Check(t, vh.N(8000, 12000)) }
